@@ -169,6 +169,7 @@ def tbLineMon (d : TBDrv) (lineNo : Nat) (ts : List String) : TBDrv × List Stri
   | "redeem" :: _ => op "redeem" true
   | "leave" :: _ => op "leave" true
   | "update" :: _ => op "update" true
+  | "createjoin" :: _ => op "createjoin" true
   | ["blind", _] => op "blind" false
   | ["pause"] => op "pause" false
   | ["close"] => op "close" false
@@ -207,6 +208,11 @@ def tbLineMon (d : TBDrv) (lineNo : Nat) (ts : List String) : TBDrv × List Stri
     let ms := post.headD "nothing"
     ({ d with pending := some { label := "continue." ++ ms, line := lineNo, implOk := true, membership := false },
               mon := TBSpec.noteOp d.mon ("continue." ++ ms) pre true d.lastObs }, [])
+  | ["contreset"] => op "contreset" false
+  | "tick" :: _ =>
+    let ms := post.headD "nothing"
+    ({ d with pending := some { label := "tick." ++ ms, line := lineNo, implOk := true, membership := false },
+              mon := TBSpec.noteOp d.mon ("tick." ++ ms) pre true d.lastObs }, [])
   | "obs" :: rest =>
     match parseTObs d.cfg rest with
     | none => (d, [s!"BADLINE {lineNo} tb-obs"])
@@ -291,6 +297,14 @@ def tbLineCore (d : TBDrv) (lineNo : Nat) (ts : List String) : TBDrv × List Str
     match (kv rest "ids").bind natList with
     | some ids => accept "leave" (batchRemove m ids) true
     | none => (d, [s!"BADLINE {lineNo}"])
+  | "createjoin" :: rest =>
+    -- the table was created with players (`TableSetting.JoinPlayers`): the model table is the one `tb new` made
+    match (kv rest "joins").bind parseJoins, (kv rest "ch").bind intList with
+    | some js, some ch =>
+      if (createJoin m js ch).2 == .ok && !(decide (DrawLegal m (.update js [] ch))) then
+        mism d s!"op=createjoin recorded-seat-draw-not-legal ch={ch}"
+      else accept "createjoin" (createJoin m js ch) true
+    | _, _ => (d, [s!"BADLINE {lineNo}"])
   | "update" :: rest =>
     match (kv rest "joins").bind parseJoins, (kv rest "leaves").bind natList, (kv rest "ch").bind intList with
     | some js, some lv, some ch =>
@@ -410,6 +424,20 @@ def tbLineCore (d : TBDrv) (lineNo : Nat) (ts : List String) : TBDrv × List Str
         ({ d with model := some r.1, pending := some { label := "continue." ++ ms, line := lineNo, implOk := true, membership := false },
                   mon := TBSpec.noteOp d.mon ("continue." ++ ms) pre true d.lastObs }, [])
       else mism d s!"op=continue model={ms} impl={String.intercalate " " post}"
+    | none => (d, [s!"BADLINE {lineNo}"])
+  -- with a continue interval: continueGame up to arming the timer …
+  | ["contreset"] => silent "contreset" (step m .contReset)
+  -- … and the delayed handler, after whatever was called in between
+  | "tick" :: rest =>
+    match (kv rest "expired").bind boolOf with
+    | some ex =>
+      let r := nextMove m ex
+      let ms := match r.2 with | .paused => "paused" | .setUp => "setup" | .nothing => "nothing" | .failed => "failed"
+      let d := { d with cnt := (d.cnt.bump "tick").bump ("tick." ++ ms) }
+      if post == [ms] then
+        ({ d with model := some r.1, pending := some { label := "tick." ++ ms, line := lineNo, implOk := true, membership := false },
+                  mon := TBSpec.noteOp d.mon ("tick." ++ ms) pre true d.lastObs }, [])
+      else mism d s!"op=tick model={ms} impl={String.intercalate " " post}"
     | none => (d, [s!"BADLINE {lineNo}"])
   | "obs" :: rest =>
     match parseTObs d.cfg rest with
